@@ -1471,14 +1471,49 @@ theorem beforeFirst_append (sep : Nat) (p t : Name) (h : sep ∉ p) :
 
 /-! ## is_jacoco -/
 
-theorem isJacoco_short (bs : List Nat) (h : bs.length < 256) : isJacoco bs = false := by
-  simp [isJacoco, h]
+theorem isPrefixOf'_iff (pat l : List Nat) :
+    isPrefixOf' pat l = true ↔ ∃ post, l = pat ++ post := by
+  induction pat generalizing l with
+  | nil => simp [isPrefixOf']
+  | cons a pat ih =>
+    cases l with
+    | nil => simp [isPrefixOf']
+    | cons b l =>
+      simp only [isPrefixOf', Bool.and_eq_true, beq_iff_eq, ih, List.cons_append, List.cons.injEq]
+      constructor
+      · rintro ⟨rfl, post, rfl⟩; exact ⟨post, rfl, rfl⟩
+      · rintro ⟨post, rfl, rfl⟩; exact ⟨rfl, post, rfl⟩
 
-theorem isJacoco_take (bs : List Nat) (h : 256 ≤ bs.length) :
-    isJacoco bs = isJacoco (bs.take 256) := by
-  have h1 : ¬ bs.length < 256 := by omega
-  have h2 : ¬ (bs.take 256).length < 256 := by simp; omega
-  simp only [isJacoco, h1, h2, if_false, List.take_take, Nat.min_self]
+theorem containsSub_iff (pat l : List Nat) :
+    containsSub pat l = true ↔ ∃ pre post, l = pre ++ pat ++ post := by
+  induction l with
+  | nil =>
+    simp only [containsSub, List.isEmpty_iff]
+    constructor
+    · rintro rfl; exact ⟨[], [], rfl⟩
+    · rintro ⟨pre, post, h⟩
+      have := congrArg List.length h
+      simp at this
+      exact List.eq_nil_of_length_eq_zero (by omega)
+  | cons b l ih =>
+    simp only [containsSub, Bool.or_eq_true, isPrefixOf'_iff, ih]
+    constructor
+    · rintro (⟨post, h⟩ | ⟨pre, post, h⟩)
+      · exact ⟨[], post, by simpa using h⟩
+      · exact ⟨b :: pre, post, by simp [h]⟩
+    · rintro ⟨pre, post, h⟩
+      cases pre with
+      | nil => exact Or.inl ⟨post, by simpa using h⟩
+      | cons c pre =>
+        simp only [List.cons_append, List.cons.injEq] at h
+        exact Or.inr ⟨pre, post, h.2⟩
+
+theorem isJacoco_iff (file : List Nat) :
+    isJacoco file = true ↔ ∃ pre post, file.take 256 = pre ++ jacocoMarker ++ post :=
+  containsSub_iff _ _
+
+theorem isJacoco_take (file : List Nat) : isJacoco file = isJacoco (file.take 256) := by
+  simp [isJacoco, List.take_take]
 
 /-! ## attribute order -/
 
